@@ -49,4 +49,10 @@ def SrvOf (sx : Gen.server.server) (c : SrvCfg) : Prop :=
 /-- Field ranges of a message that came out of `Decode` (32-bit xid, 16-bit flags). -/
 def MsgRanges (m : Msg) : Prop := m.xid < 4294967296 ∧ m.flags < 65536 ∧ m.secs < 65536 ∧ m.cookie < 4294967296
 
+/-- Every address the handler's own lookups return is a 32-bit value (Go's `uip.Uip` is a `uint32`; the model's
+addresses are unbounded naturals — the two agree on every store reachable through `toUip`). -/
+def LookupsBounded {σ : Type} (S : Store σ) (db : IPDB σ) (rx : Rx) (o : HOracle) : Prop :=
+  let g := getDuid S db o.t0 rx.msg.chaddr (decodeOptions rx.msg.options).clientIdentifier
+  ∀ a, (g.1.lookupByDuid S o.t1 g.2).2 = .ok a → a < 4294967296
+
 end PsaDhcp.Code
